@@ -125,6 +125,14 @@ func equal(n *Node, a, b reflect.Value, path string, json bool) string {
 				}
 				continue
 			}
+			if json && f.OmitEmpty && isEmptyValue(fa) {
+				// omitempty: an empty value (reflect zero, or an empty slice) is absent from the document and reads
+				// back as the zero value / an empty slice
+				if !isEmptyValue(fb) {
+					return fmt.Sprintf("%s: omitempty field was empty but reads back non-empty", fp)
+				}
+				continue
+			}
 			if f.Optional {
 				if fa.IsNil() != fb.IsNil() {
 					return fmt.Sprintf("%s: optional nil-ness differs (%v vs %v)", fp, fa.IsNil(), fb.IsNil())
@@ -290,4 +298,12 @@ func (c *Case) MapDecode(m map[string]any, validate bool) (out Outcome) {
 	out.Err = c.API.MapDecode(context.Background(), m, p.Interface(), opts(validate)...)
 
 	return out
+}
+
+func isEmptyValue(v reflect.Value) bool {
+	if v.IsZero() {
+		return true
+	}
+
+	return v.Kind() == reflect.Slice && v.Len() == 0
 }
